@@ -693,7 +693,7 @@ func c13Random(m *vModel, rnd *vRand, a c13Alphabet, n int, withMsg bool) []stri
 func TestVerifC13(t *testing.T) {
 	res := vNewResult("C13", "partition.Subscribe / subscription.Close / loop exits on real partitions of a single-node server, one step at a time "+
 		"(after an exit step the harness waits until the loop goroutine has returned); after EVERY step: answer, registry (p.consumers), Closed() of every subscription handed out, loops returned. "+
-		"Exhaustive: every sequence of exactly 4 (thorough: 5) applicable steps over 2 groups x 2 consumer ids x epochs {1,2,3} + a non-group subscription, a validation failure, three reader-creation failures, cancel/exit of every running loop (first step w.l.o.g. group g1, consumer A); every sequence of 5 steps over 1 group x 2 consumers x epochs {1,2} (thorough: 6 steps, epochs {1,2,3}); "+
+		"Exhaustive: every sequence of exactly 4 (thorough: 5) applicable steps over 2 groups x 2 consumer ids x epochs {1,2,3} + a non-group subscription, a validation failure, three reader-creation failures, cancel/exit of every running loop (first step w.l.o.g. group g1, consumer A); every sequence of 5 steps over 1 group x 2 consumers x epochs {1,2} (thorough: 6 steps, epochs {1,2,3}); every sequence of 4 (thorough: 5) steps over 1 group x 2 consumers x epochs {0,1,2} (0 = the field left unset); "+
 		"random: sequences of 8-40 steps over 3 groups x 3 consumers x 4 epochs, a third with `a message arrives` steps; the hand-over through the real gRPC API; a free-running stress run sampled under consumersMu. "+
 		"Judged by an oracle written from the property (at most one active per group at every moment; older than the active one => refused and unchanged; equal/newer => accepted, previous closed, alone; refused only against a newer registered member; nothing left registered when all loops ended) "+
 		"and compared line by line with the Lean model. non-trivial = at least two accepted subscriptions of one group and one loop exit or cancellation; distinct by program text")
@@ -834,21 +834,25 @@ func TestVerifC13(t *testing.T) {
 		extras: []string{"sub - X 0", "sub g1 A 3 late", "sub g1 B 1 late", "sub g2 A 2 late", "sub g1 B 3 early"}}
 	small := c13Alphabet{groups: []string{"g1"}, consumers: []string{"A", "B"}, epochs: []int{1, 2},
 		extras: []string{"sub g1 A 2 late"}}
+	// epoch 0 is what a request that leaves the field unset carries: stale against every registered member with a real epoch
+	zero := c13Alphabet{groups: []string{"g1"}, consumers: []string{"A", "B"}, epochs: []int{0, 1, 2}}
 	emit := func(p []string) { cases <- p }
 	if vThorough() {
+		c13Enumerate(steer, zero, 5, emit)
 		mid := c13Alphabet{groups: []string{"g1"}, consumers: []string{"A", "B"}, epochs: []int{1, 2, 3}, extras: []string{"sub g1 B 2 late"}}
 		c13Enumerate(steer, full, 5, emit)
 		c13Enumerate(steer, mid, 6, emit)
 	} else {
 		c13Enumerate(steer, full, 4, emit)
 		c13Enumerate(steer, small, 5, emit)
+		c13Enumerate(steer, zero, 4, emit)
 	}
 	res.Exhaustive = true
 	// ---- random long sequences
 	rnd := vNewRand(13)
 	wide := c13Alphabet{groups: []string{"g1", "g2", "g3"}, consumers: []string{"A", "B", "C"}, epochs: []int{1, 2, 3, 4},
 		extras: []string{"sub - X 0", "sub - Y 7", "sub g1 A 4 late", "sub g2 B 1 late", "sub g3 C 2 late", "sub g1 C 4 early", "sub g2 A 1 early"}}
-	narrow := c13Alphabet{groups: []string{"g1"}, consumers: []string{"A", "B"}, epochs: []int{1, 2, 3}, extras: []string{"sub g1 A 3 late"}}
+	narrow := c13Alphabet{groups: []string{"g1"}, consumers: []string{"A", "B"}, epochs: []int{0, 1, 2, 3}, extras: []string{"sub g1 A 3 late"}}
 	nRandom := 1500
 	if vThorough() {
 		nRandom = 40000
